@@ -385,8 +385,59 @@ func poolDiscipline(c *Ctx, rule string) {
 		scope := p.Types.Scope()
 		for _, nm := range scope.Names() {
 			pv, ok := scope.Lookup(nm).(*types.Var)
-			if !ok || pv.Type().String() != "sync.Pool" {
+			if !ok {
 				continue
+			}
+			// a sync.Pool — or a package-local type that wraps one and forwards to it (a typed pool): its methods that call
+			// Get / Put on the wrapped pool stand for Get / Put
+			getNames, putNames := map[string]bool{}, map[string]bool{}
+			if pv.Type().String() == "sync.Pool" {
+				getNames["Get"], putNames["Put"] = true, true
+			} else {
+				wt := pv.Type()
+				if pt, ok := wt.(*types.Pointer); ok {
+					wt = pt.Elem()
+				}
+				nt, ok := wt.(*types.Named)
+				if !ok || nt.Obj().Pkg() != p.Types {
+					continue
+				}
+				stt, ok := nt.Underlying().(*types.Struct)
+				if !ok {
+					continue
+				}
+				wraps := false
+				for i := 0; i < stt.NumFields(); i++ {
+					if stt.Field(i).Type().String() == "sync.Pool" {
+						wraps = true
+					}
+				}
+				if !wraps {
+					continue
+				}
+				for _, mfd := range allFuncDecls(p) {
+					if mfd.Recv == nil || recvTypeName(mfd.Recv.List[0].Type) != nt.Obj().Name() || mfd.Body == nil {
+						continue
+					}
+					ast.Inspect(mfd.Body, func(n ast.Node) bool {
+						if call, ok := n.(*ast.CallExpr); ok {
+							if se, ok := call.Fun.(*ast.SelectorExpr); ok {
+								if t := info.TypeOf(se.X); t != nil && strings.TrimPrefix(t.String(), "*") == "sync.Pool" {
+									switch se.Sel.Name {
+									case "Get":
+										getNames[mfd.Name.Name] = true
+									case "Put":
+										putNames[mfd.Name.Name] = true
+									}
+								}
+							}
+						}
+						return true
+					})
+				}
+				if len(getNames) == 0 || len(putNames) == 0 {
+					continue
+				}
 			}
 			poolKey := p.PkgPath + "." + nm
 			var gets, puts []struct {
@@ -407,13 +458,13 @@ func poolDiscipline(c *Ctx, rule string) {
 					if !ok || info.ObjectOf(id) != types.Object(pv) {
 						return true
 					}
-					switch se.Sel.Name {
-					case "Get":
+					switch {
+					case getNames[se.Sel.Name]:
 						gets = append(gets, struct {
 							fd   *ast.FuncDecl
 							call *ast.CallExpr
 						}{fd, call})
-					case "Put":
+					case putNames[se.Sel.Name]:
 						puts = append(puts, struct {
 							fd   *ast.FuncDecl
 							call *ast.CallExpr
